@@ -23049,6 +23049,13 @@ pub mod verif_hooks_reload {
 		);
 	}
 
+	/// Whether `FundedChannel::write` includes the onions of committed inbound HTLCs (which the
+	/// reconstructing load path needs and which is otherwise only written by the crate's tests).
+	#[allow(dead_code)]
+	pub(crate) fn write_committed_update_adds() -> bool {
+		MODE.load(Ordering::SeqCst) == 2
+	}
+
 	#[allow(dead_code)]
 	pub(super) fn reconstruct_override() -> Option<bool> {
 		match MODE.load(Ordering::SeqCst) {
